@@ -19,14 +19,15 @@ RULE = ("(i) `'%.Nf' % x` vs model fmtFixed on >= 10 000 binary64 values per run
         "version x wrap x fmt x column_fmt x len_numeric_field x spacers x data_width x mnemonics_header x data_section_header; the "
         "text from the ~A line on is compared byte-exactly with model dataLines; oracle: the whole text is re-read with both engines "
         "and the property is checked cell by cell with exact rational arithmetic. non-trivial = configuration inside CfgOK with >= 2 "
-        "curves; configurations outside CfgOK (unsupported format, non-blank spacer, field wider than data_width when wrapping, "
+        "curves; configurations outside CfgOK (unsupported format, non-blank spacer, "
         "non-numeric NULL, NULL clash) are generated and reported as context only")
 TRUSTED = ["CPython float formatting ('%.Nf' is the correctly rounded, round-half-even decimal expansion of the binary value) and float() "
            "(correctly rounded strtod): modelled by fmtFixed / compared on every run",
-           "textwrap.TextWrapper chunking on texts whose words have no hyphen/em-dash break position (numbers): modelled by textWrap",
+           "textwrap.TextWrapper(break_long_words=False, break_on_hyphens=False) = whitespace-only chunking: modelled by textWrap and compared on "
+           "every run on data-like rows incl. over-long and hyphenated words",
            "the reader side (lasio.read with both engines) is exercised by the oracle only; its model belongs to C02/C05/C09"]
 ASSUMPTIONS = ["CfgOK: version in {1.2, 2}; spacer a non-empty string of blanks/TABs, lhs_spacer blanks/TABs (may be empty); fmt and every "
-               "column_fmt of the form %[width].Nf; when wrapping, every chunk (formatted field, run of padding) fits in data_width; NULL a "
+               "column_fmt of the form %[width].Nf; when wrapping, data_width >= 1 (a field wider than data_width stands alone on its line); NULL a "
                "finite number; NoNullClash: no finite non-index cell prints as a token numerically equal to NULL",
                "curves hold float64 data, finite or NaN, NaN never in the index curve; rows >= 1",
                "within half a unit of the last printed digit is read on the written decimal token (exact rationals); the value read back is "
@@ -140,12 +141,9 @@ def cfg_ok(cfg, null, rows):
             if j > 0 and not math.isnan(x):
                 if float(col_fmt(cfg, j) % x) == nullv:
                     return False, "null-clash"
-    if cfg["wrap"]:
-        l = mg.field_len(cfg)
-        for r in rows:
-            row = "".join(ref_cell(x, col_fmt(cfg, j), l, lhs if j == 0 else sp, str(null)) for j, x in enumerate(r))
-            if any(len(c) > cfg["data_width"] for c in py_chunks(row)):
-                return False, "field>data_width"
+    if cfg["wrap"] and cfg["data_width"] < 1:
+        return False, "data_width<1"
+    # a field wider than data_width is in the domain since the repair 1d7c711 (it gets a line of its own, unbroken)
     return True, "ok"
 
 
@@ -327,7 +325,8 @@ def stream_fmt(run):
 
 def data_like_row(rng):
     n = rng.randint(0, 9)
-    toks = ["1.0", "-2.5", "123456.789", "-9999.25", "0", "12345678901234", "-0.00000", "7", "nan", "1e-05", "-999.25000"]
+    toks = ["1.0", "-2.5", "123456.789", "-9999.25", "0", "12345678901234", "-0.00000", "7", "nan", "1e-05", "-999.25000",
+            "sand-shale", "a-b-c", "x\u2014y", "10000000000000000000000.00000", "well-known-long-hyphenated-word"]
     s = "".join(rng.choice([" ", "  ", "    ", "\t", " \t", "\t\t", "          "]) + rng.choice(toks) for _ in range(n))
     if rng.random() < 0.3:
         s = rng.choice(["", " ", "   ", "\t"]) + s
@@ -351,16 +350,13 @@ def stream_wrap(run):
     for (s, w), a in zip(cases, ans):
         case = {"stream": "wrap", "s": s, "width": w}
         fits = w > 0 and all(len(c) <= w for c in py_chunks(s))
-        run.case(case, nontrivial=fits and len(s) > w, tags=["wrap", "fits" if fits else "ctx:chunk>width"])
+        run.case(case, nontrivial=len(s) > w > 0, tags=["wrap", "fits" if fits else "chunk>width"])
         run.traces += 1
         try:
-            real = textwrap.TextWrapper(width=w).wrap(s)
+            # the wrapper as lasio.writer.write configures it since the repair 1d7c711 (only breaks at whitespace)
+            real = textwrap.TextWrapper(width=w, break_long_words=False, break_on_hyphens=False).wrap(s)
         except ValueError:
             real = "unmodelled"
-        if not fits:
-            if a != "unmodelled":
-                run.disagree("textWrap-domain", case, a, "unmodelled", in_domain=True)
-            continue
         if a != real:
             run.disagree("textWrap", case, a, real, in_domain=True)
     # tokensWs = str.split, decOfTok = Fraction
@@ -444,9 +440,9 @@ def stream_files(run):
         except Exception:
             continue
         longest = max(len(t) for t in toks)
-        for extra in (0, 1):
+        for extra in (0, 1, -1, -3, -longest + 1):
             c2 = dict(cfg)
-            c2["data_width"] = longest + extra
+            c2["data_width"] = max(longest + extra, 1)
             go(mg.names(rng, ncols), rows, null, c2, "boundary-data-width")
     # histories: the object was written (and .data evaluated) before its arrays were edited in place
     for _ in range(run.budget(80, 1000)):
